@@ -36,20 +36,33 @@ tracing = { path = "%s/kani/shims/tracing" }
 """
 
 
+MIRWS_QUINN_TOML = """[package]
+name = "quinn-verif-mir-quinn"
+version = "0.0.0"
+edition = "2021"
+publish = false
+
+[workspace]
+
+[dependencies]
+quinn = { path = "%s/quinn", default-features = false }
+"""
+
+
 def dump_mir(logdir, crate="quinn-proto"):
     """(Re)generates the MIR dump of quinn-proto (or quinn-udp) from the current working tree, built the same
     way as for Kani: no default features, `tracing` replaced by the no-op shim (logging has an empty body)."""
     os.makedirs(MIRDIR, exist_ok=True)
     out = os.path.join(MIRDIR, crate.replace("-", "_") + ".mir")
     tag = "" if os.path.abspath(REPO) == "/repo" else "-" + hashlib.sha256(os.path.abspath(REPO).encode()).hexdigest()[:8]
-    ws = os.path.join(BUILD, "mirws" + tag)       # one workspace per source tree: concurrent runs on different trees never share one
+    ws = os.path.join(BUILD, ("mirws-quinn" if crate == "quinn" else "mirws") + tag)       # one workspace per source tree: concurrent runs on different trees never share one
     os.makedirs(os.path.join(ws, "src"), exist_ok=True)
-    toml = MIRWS_TOML % (REPO, REPO, VERIF)
+    toml = (MIRWS_QUINN_TOML % REPO) if crate == "quinn" else (MIRWS_TOML % (REPO, REPO, VERIF))
     if not os.path.exists(os.path.join(ws, "Cargo.toml")) or open(os.path.join(ws, "Cargo.toml")).read() != toml:
         open(os.path.join(ws, "Cargo.toml"), "w").write(toml)
     open(os.path.join(ws, "src", "lib.rs"), "w").write("")
     shutil.copyfile(os.path.join(REPO, "Cargo.lock"), os.path.join(ws, "Cargo.lock"))
-    tdir = os.path.join(BUILD, "mir-target" + tag)
+    tdir = os.path.join(BUILD, ("mir-target-quinn" if crate == "quinn" else "mir-target") + tag)
     # force rustc to run again for quinn-proto without touching files in /repo
     p = os.path.join(tdir, "debug", ".fingerprint")
     if os.path.isdir(p):
@@ -85,8 +98,8 @@ class Ctx:
     def __init__(self, ex, fn):
         self.ex, self.fn = ex, fn
 
-    def field(self, src_rel, struct, name):
-        fields = mir2smt.struct_fields(os.path.join(REPO, "quinn-proto", "src", src_rel), struct)
+    def field(self, src_rel, struct, name, crate="quinn-proto"):
+        fields = mir2smt.struct_fields(os.path.join(REPO, crate, "src", src_rel), struct)
         if name not in fields:
             raise Untranslatable("field %s.%s not found" % (struct, name))
         return fields.index(name)
@@ -390,6 +403,8 @@ def replay(q, r, prop, logdir):
         r.update(verdict="inconclusive", why=r["why"] + " (no native replay body for this query)")
         return r
     hname, argfn = rp
+    if hname.startswith("quinn-test:"):
+        return replay_quinn_test(q, r, prop, logdir, hname)
     h = next(x for x in spec.HARNESSES if x.name == hname)
     argsets = []
     try:
@@ -432,12 +447,44 @@ def replay(q, r, prop, logdir):
     return r
 
 
+class _TestHarness:
+    """Stands in for a spec.Harness where the replay body is a test of the `quinn` crate (async layer)."""
+    def __init__(self, name):
+        self.name, self.fn, self.crate, self.args = name, name.split(":", 1)[1], "quinn", []
+
+
+def replay_quinn_test(q, r, prop, logdir, hname):
+    """Candidates of queries over the `quinn` crate are replayed by a test that drives the real async API
+    over loopback sockets (hooks/quinn/tests.rs, included into quinn's test module behind `__verif-hooks`)."""
+    import driver
+    h = _TestHarness(hname)
+    with driver.Lock("replay.lock"):
+        out = driver.replay_quinn_test(h.fn, logdir, tag="e2_%s" % q["name"])
+    r["replay"] = {p: {k: v for k, v in d.items() if k != "output"} for p, d in out.items()}
+    rfile = os.path.join(driver.OUT, "replay", "%s_E2_%s.json" % (prop, q["name"]))
+    os.makedirs(os.path.dirname(rfile), exist_ok=True)
+    json.dump(dict(property=prop, harness=h.name, fn=h.fn, crate=h.crate, args=[], e2_query=q["name"], model=r.get("model"), replay=out),
+              open(rfile, "w"), indent=1)
+    r["replay_file"] = rfile
+    if out.get("dev", {}).get("panicked"):
+        known = driver.load_known()
+        k = driver.match_known(known, prop, h, out, [])
+        if k:
+            r.update(verdict="known-finding", known=k.get("what"))
+        else:
+            r.update(verdict="violation")
+    else:
+        r.update(verdict="inconclusive", why=r["why"] + " - but the candidate does not reproduce natively (encoding or replay body is wrong)")
+    return r
+
+
 def setup():
     logdir = os.path.join(BUILD, "setup-logs")
     os.makedirs(logdir, exist_ok=True)
     try:
         dump_mir(logdir)
         dump_mir(logdir, "quinn-udp")
+        dump_mir(logdir, "quinn")
         print("MIR dump ok")
         return 0
     except Exception as e:  # noqa
